@@ -1,4 +1,5 @@
 """C13 — the schema loaded at run time from reflection behaves like the compiled one."""
+import own_lookup
 import json
 import shutil
 from concurrent.futures import ThreadPoolExecutor
@@ -53,14 +54,14 @@ def names_json(fcp, t, v):
     """The JSON the run-time codec takes: enumerators by name."""
     from fcp.specs import type as T
     if type(t) is T.EnumType:
-        e = fcp.get_enum(t.name).unwrap()
+        e = own_lookup.enum(fcp, t.name)
         return next(x.name for x in e.enumeration if x.value == v)
     if type(t) in (T.ArrayType, T.DynamicArrayType):
         return [names_json(fcp, t.underlying_type, x) for x in v]
     if type(t) is T.OptionalType:
         return None if v is None else names_json(fcp, t.underlying_type, v)
     if type(t) is T.StructType:
-        s = fcp.get_struct(t.name).unwrap()
+        s = own_lookup.struct(fcp, t.name)
         return {f.name: names_json(fcp, f.type, v[f.name]) for f in s.fields}
     return v
 
@@ -69,7 +70,7 @@ def numbers(fcp, t, v):
     """Decoded JSON of the run-time codec -> numbered enumerators, Python value shape."""
     from fcp.specs import type as T
     if type(t) is T.EnumType:
-        e = fcp.get_enum(t.name).unwrap()
+        e = own_lookup.enum(fcp, t.name)
         return next(x.value for x in e.enumeration if x.name == v)
     if type(t) in (T.FloatType, T.DoubleType):
         return float(v)
@@ -78,7 +79,7 @@ def numbers(fcp, t, v):
     if type(t) is T.OptionalType:
         return None if v is None else numbers(fcp, t.underlying_type, v)
     if type(t) is T.StructType:
-        s = fcp.get_struct(t.name).unwrap()
+        s = own_lookup.struct(fcp, t.name)
         return {f.name: numbers(fcp, f.type, v[f.name]) for f in s.fields}
     return v
 
@@ -93,7 +94,7 @@ def classes(fcp, t, v, top=True):
         if type(t) is T.SignedType and v < 0:
             out.add("dyn-negative-decode")
     elif type(t) is T.EnumType:
-        if ref_wire.enum_width(fcp.get_enum(t.name).unwrap()) % 8:
+        if ref_wire.enum_width(own_lookup.enum(fcp, t.name)) % 8:
             out.add("dyn-byte-align")
     elif type(t) in (T.ArrayType, T.DynamicArrayType):
         for x in v:
@@ -106,7 +107,7 @@ def classes(fcp, t, v, top=True):
                 out.add("dyn-optional-empty")
             out |= classes(fcp, t.underlying_type, v, False)
     elif type(t) is T.StructType:
-        s = fcp.get_struct(t.name).unwrap()
+        s = own_lookup.struct(fcp, t.name)
         if [f.field_id for f in s.fields] != sorted(f.field_id for f in s.fields):
             out.add("dyn-declaration-order")
         for f in s.fields:
